@@ -586,7 +586,7 @@ func scenario(seed int64, policy string, idx int, emit func(e2eRec)) {
 			e.msetAcrossTables(tabs, op, &rec, before, logBefore, emit)
 			continue
 		}
-		if (c.Typ == "hash" || c.Typ == "set" || c.Typ == "zset") && r.Chance(0.15) {
+		if (c.Typ == "hash" || c.Typ == "set" || c.Typ == "zset" || c.Typ == "kv") && r.Chance(0.18) {
 			e.rejectedWrite(c, op, &rec, before, logBefore, emit)
 			continue
 		}
@@ -1086,33 +1086,61 @@ func (e *e2e) rejectedWrite(c collID, op int, rec *e2eRec, before map[string]str
 		big = []byte("lastfield")
 		lastVal = make([]byte, rr.MaxValueSize+1)
 	}
-	raw, pa := e.asParsed("multi", raw, good1, []byte("x"), good2, []byte("y"), big, lastVal)
+	// removal variant: an EXISTING member first, then the refused one (the staged delete must not survive)
+	removal := e.r.Chance(0.45) && len(e.alive[c]) > 0 && c.Typ != "kv"
+	first := good1
+	if removal {
+		first = e.alive[c][e.r.Pick(len(e.alive[c]))]
+		big = make([]byte, rr.MaxSubKeyLen+1)
+		lastVal = []byte("z")
+	}
+	raw, pa := e.asParsed("multi", raw, first, []byte("x"), good2, []byte("y"), big, lastVal)
 	good1, good2, big = pa[0], pa[2], pa[4]
-	switch c.Typ {
-	case "hash":
+	callerAborts := false // the command stages into the shared batch and ends with MaybeCommitBatch
+	switch {
+	case c.Typ == "hash" && removal:
+		rec.Op = "rejected HDel + KVSet elsewhere"
+		_, err = e.db.HDel(e.tick(), raw, good1, big)
+		callerAborts = true
+	case c.Typ == "hash":
 		rec.Op = "rejected HMset + KVSet elsewhere"
 		if len(lastVal) > 1 {
 			rec.Op = "rejected HMset(value size) + KVSet elsewhere"
 		}
 		err = e.db.HMset(e.tick(), raw, common.KVRecord{Key: good1, Value: pa[1]}, common.KVRecord{Key: good2, Value: pa[3]},
 			common.KVRecord{Key: big, Value: pa[5]})
-	case "set":
+		callerAborts = true
+	case c.Typ == "set" && removal:
+		rec.Op = "rejected SRem + KVSet elsewhere"
+		_, err = e.db.SRem(e.tick(), raw, good1, big)
+	case c.Typ == "set":
 		rec.Op = "rejected SAdd + KVSet elsewhere"
 		_, err = e.db.SAdd(e.tick(), raw, good1, good2, big)
-	case "zset":
+	case c.Typ == "zset" && removal:
+		rec.Op = "rejected ZRem + KVSet elsewhere"
+		_, err = e.db.ZRem(e.tick(), raw, good1, big)
+	case c.Typ == "zset":
 		rec.Op = "rejected ZAdd + KVSet elsewhere"
 		_, err = e.db.ZAdd(e.tick(), raw, common.ScorePair{Score: 7, Member: good1}, common.ScorePair{Score: 8, Member: good2},
 			common.ScorePair{Score: 9, Member: big})
+	case c.Typ == "kv":
+		// MSET: a new key, the existing one, then a pair whose value is over the size limit
+		rec.Op = "rejected MSet(value size) + KVSet elsewhere"
+		err = e.db.MSet(e.tick(), common.KVRecord{Key: []byte(c.Table + ":msleak"), Value: []byte("x")},
+			common.KVRecord{Key: raw, Value: []byte("y")},
+			common.KVRecord{Key: []byte(c.Table + ":mslast"), Value: make([]byte, rr.MaxValueSize+1)})
+		callerAborts = true
 	}
 	rec.Logical = append(rec.Logical, e.lentCheck()...)
 	rec.Targets = []string{c.String()}
 	if err == nil {
-		rec.Err = "the over-long member was not rejected"
-	} else if c.Typ == "hash" && rr.IsBatchableWrite("hmset") && rr.IsNeedAbortError(err) {
-		// HMSET is a batchable command: it stages into the shared batch, which may already hold earlier
-		// batched commands, so it can not clear it itself; the caller aborts the batch on error, exactly as
-		// node.kvbatchOperator.AbortBatchForError does in the apply loop. SADD / ZADD own the batch
-		// (defer wb.Clear()) and get no such help here.
+		rec.Err = "the over-long element was not rejected"
+	} else if callerAborts && rr.IsNeedAbortError(err) {
+		// HMSET / HDEL / MSET stage into the shared batch and end with MaybeCommitBatch: the batch may already
+		// hold earlier batched commands, so they can not clear it themselves; the caller aborts the batch on
+		// error, exactly as node.kvbatchOperator.AbortBatchForError does in the apply loop (for every error
+		// rockredis.IsNeedAbortError says so). SADD / SREM / ZADD / ZREM write the batch themselves and own it
+		// (defer wb.Clear()): they get no such help here.
 		e.db.AbortBatch()
 	}
 	mid := e.dump()
